@@ -14,7 +14,7 @@ FullO == [n \in OptNames |->
 CidPats == {"pins_hash", "pins_hash_recover", "allocations_hash"}
 
 Canon(pat, method) ==
-    [via |-> "http", cfg |-> "open", cred |-> "missing", method |-> method, pat |-> pat, pre |-> "no",
+    [via |-> "http", tr |-> "plain", cfg |-> "open", cred |-> "missing", method |-> method, pat |-> pat, pre |-> "no",
      cid   |-> IF pat \in CidPats THEN "v0" ELSE "na",
      path  |-> IF pat = "pins_path" THEN "ipfs" ELSE "na",
      peer  |-> IF pat = "peers_peer" THEN "valid" ELSE "na",
@@ -109,8 +109,15 @@ AddShapes(r) ==
         cv \in {"absent", "zero", "one"}, rl \in {"absent", "true", "false"}, ch \in {"absent", "size1024"},
         st \in {"absent", "false"}, ly \in {"absent", "trickle"}}
 
+\* ---- configuration variants -------------------------------------------------
+Variant(S, v) == {[q EXCEPT !.tr = v] : q \in S}
+\* quick: all endpoints x all methods x {no, bad, good credentials} and every positional class, under every variant
+SliceCreds == {<<"open", "missing">>, <<"auth", "missing">>, <<"auth", "wrongpass">>, <<"auth", "unknownempty">>,
+               <<"auth", "right">>}
+AuthSlice(pat) == {q \in AuthCases(pat) : <<q.cfg, q.cred>> \in SliceCreds}
+
 \* ---- everything for one route / one pattern -------------------------------
-RouteCases(r, level) ==
+RouteCasesPlain(r, level) ==
     PosCases(r, Open) \cup PosCases(r, Right) \cup AuthInvalid(r)
     \cup (IF r \in OptRoutes
             THEN WithO(r, Open, Singles(BaseO)) \cup WithO(r, Right, Singles(BaseO)) \cup WithOAlt(r, Singles(BaseO))
@@ -126,6 +133,16 @@ RouteCases(r, level) ==
             THEN UNION {WithO(r, Open, OptTriples(n0)) : n0 \in OptNames} \cup WithO(r, Right, OptPairs)
             ELSE {})
     \cup (IF level = "thorough" /\ r.name \in {"Pin", "PinPath"} THEN WithOAlt(r, OptPairs) ELSE {})
+
+RouteCases(r, level) ==
+    RouteCasesPlain(r, level)
+    \cup UNION {Variant(PosCases(r, Open) \cup PosCases(r, Right) \cup AuthInvalid(r), v) : v \in ConfigVariants}
+    \cup (IF level = "thorough" THEN Variant(RouteCasesPlain(r, level), "tracing") ELSE {})
+
+PatCases(pat, level) ==
+    AuthCases(pat)
+    \cup UNION {Variant(AuthSlice(pat), v) : v \in ConfigVariants}
+    \cup (IF level = "thorough" THEN UNION {Variant(AuthCases(pat), v) : v \in ConfigVariants} ELSE {})
 
 \* ---- the bundled client ---------------------------------------------------
 ClientRoutes == Routes
@@ -148,7 +165,7 @@ ClientFull == [FullO EXCEPT !["expire"] = "at"]
 \* add parameters a caller can express with api.AddParams (Add() forces stream-channels)
 ClientAddSingles == UNION {{[BaseA EXCEPT ![n] = c] : c \in AddOptValid(n)} : n \in AddOptNames \ {"stream"}}
 
-ClientCases(r) ==
+ClientCasesPlain(r) ==
     {[CanonR(r) EXCEPT !.via = "client", !.cfg = ctx[1], !.cred = ctx[2], !.cid = c, !.path = p, !.mname = mn,
                        !.peer = pe, !.local = l, !.filter = f, !.ans = an] :
         ctx \in ClientCtx,
@@ -182,5 +199,9 @@ ClientCases(r) ==
                     ctx \in ClientCtx, an \in AddAnswers, o \in {BaseO, [BaseO EXCEPT !["origins"] = "nopeer"]},
                     ch \in {"absent", "bogus"}}
             ELSE {})
+
+ClientCases(r) ==
+    ClientCasesPlain(r)
+    \cup Variant({q \in ClientCasesPlain(r) : q.o = BaseO /\ q.a = BaseA}, "tracingcors")
 
 =============================================================================
